@@ -347,6 +347,8 @@ func TestC13(t *testing.T) {
 			switch kind {
 			case "err":
 				f.Err = syscall.EIO
+			case "eintr":
+				f.Err = syscall.EINTR
 			case "short1":
 				if ev.Op != "Read" || ev.N < 2 {
 					return faultPlan{}, false
@@ -362,7 +364,7 @@ func TestC13(t *testing.T) {
 		}
 		// (1) one deviation at every leaf operation index
 		for i := 0; i < N; i++ {
-			for _, kind := range []string{"err", "short1", "shorthalf"} {
+			for _, kind := range []string{"err", "eintr", "short1", "shorthalf"} {
 				idx++
 				if !r.Mine(idx) {
 					continue
